@@ -229,7 +229,7 @@ func (e *enc) instr(b *ssa.BasicBlock, st *State, ins ssa.Instruction) {
 		e.vals[x] = []string{e.mkFld(base, fieldID(stt.Field(x.Field)))}
 	case *ssa.Field:
 		si := structSort(x.X.Type())
-		e.setVal(x, fmt.Sprintf("(%s %s)", si.fields[x.Field], e.val(x.X)))
+		e.setVal(x, projField(si, x.Field, e.val(x.X)))
 	case *ssa.IndexAddr:
 		e.indexAddr(st, x)
 	case *ssa.Index:
